@@ -36,6 +36,7 @@ func init() {
 			{ID: "C02.R11", Floor: 6, Doc: "duration vints: zig-zag terms, length, marker and payload order agree with the specification on their finite domains (=C12.R6)", Run: c12r6},
 			{ID: "C02.R15", Floor: 1, Doc: "decoding a map replaces the destination: every SetMapIndex is preceded on every path by setting the destination to a fresh map", Run: c02FreshMap},
 			{ID: "C02.R16", Floor: 3, Doc: "time values are converted to milliseconds / days from Unix() and Nanosecond() (exact over the whole range of time.Time), never through UnixNano(), which overflows outside 1678..2262", Run: c02NoUnixNano},
+			{ID: "C02.R17", Floor: 1, Doc: "a decoded list or set owns fresh storage (=C04.R15): what was decoded earlier into the same destination is not overwritten", Run: c04FreshList},
 			{ID: "C02.R14", Floor: 10, Doc: "sibling agreement: every marshal<Type>(info, value) encoder has an explicit answer for the unset marker ((nil, nil); tuples and UDTs: the unsupported error)", Run: c02r14},
 			{ID: "C02.R13", Floor: 1, Doc: "no integer product of a decoded wire value can overflow its type (unit conversions of timestamps and dates divide before they multiply)", Run: c02r13},
 			{ID: "C02.R12", Floor: 3, Doc: "every decoded element gets storage of its own (=C12.R12)", Run: c12r12},
